@@ -106,7 +106,7 @@ pub fn run_files_intr(p: &Prepared, files: &[Vec<u8>], clear: Clear) -> IntrResu
 // ---------- follow mode ----------
 
 /// run `f` with the process's stdout (fd 1) redirected into a file; returns what was written
-fn capture_stdout<F: FnOnce()>(f: F) -> Vec<u8> {
+pub fn capture_stdout<F: FnOnce()>(f: F) -> Vec<u8> {
     use std::io::Write;
     use std::os::unix::io::AsRawFd;
     let _ = std::io::stdout().flush();
